@@ -102,3 +102,17 @@ def slot_kind(s):
     if isinstance(s.type, Pulse):
         return "pulse"
     return s.type
+
+
+def indep_fall(pulse, ch, in_eom: bool) -> int:
+    """fall time of a pulse recomputed from the waveforms' own end buffers
+    (documented definition: rise time + the longer of the amplitude's and the
+    detuning's END modulation buffers), independently of Pulse.fall_time"""
+    if in_eom and ch.supports_eom():
+        rise = ch.eom_config.rise_time
+    else:
+        rise = ch.rise_time
+        in_eom = False
+    a = pulse.amplitude.modulation_buffers(ch, eom=in_eom)[1]
+    d = pulse.detuning.modulation_buffers(ch, eom=in_eom)[1]
+    return int(rise + max(a, d))
